@@ -129,7 +129,8 @@ def run(ctx):
             m = core.unhex(o)
             ctx.compared("score:" + desc["config"])
             scale = 1.0 if A is None else max(1.0, float(np.abs(A).max()))
-            if not core.close(r, m, rtol=1e-9 * scale, atol=1e-9 * scale if cls == "mmd" else 1e-12):
+            # MMD: square root of a cancelling difference, see c13.py
+            if not core.close(r, m, rtol=1e-9 * scale, atol=2e-7 * np.sqrt(scale) if cls == "mmd" else 1e-12):
                 ctx.corr_break("score:" + desc["config"], inp, {"impl": r, "model": m})
         # POT weights are the cluster conditionals (model: wassWeights)
         if cls == "wass" and calls:
